@@ -216,8 +216,16 @@ where
             datetime.format("%a %b %d").to_string()
         }
         brush_parser::prompt::PromptDateFormat::Custom(fmt) => {
+            use std::fmt::Write as _;
+
+            // N.B. Formatting fails on conversion specifiers that chrono doesn't know; `to_string()`
+            // would panic on that, so in that case we yield the format string as it is.
             let fmt_items = chrono::format::StrftimeItems::new(fmt);
-            datetime.format_with_items(fmt_items).to_string()
+            let mut formatted = String::new();
+            if write!(formatted, "{}", datetime.format_with_items(fmt_items)).is_err() {
+                formatted.clone_from(fmt);
+            }
+            formatted
         }
     }
 }
